@@ -39,7 +39,7 @@ Lemma sub_unf_none tb : call (sub_obj tb SNone) = tie FUEL (none_sem tb WOptionS
 Proof. reflexivity. Qed.
 Lemma sub_unf_vec tb xs : call (sub_obj tb (SVec xs)) = tie FUEL (vec_sem tb (map call (map (sub_obj tb) xs))).
 Proof. reflexivity. Qed.
-Lemma sub_unf_pair tb o i : call (sub_obj tb (SPair o i)) = tie FUEL (layered_sem tb WLayeredS (sub_obj tb o) (sub_obj tb i)).
+Lemma sub_unf_pair tb o i : call (sub_obj tb (SPair o i)) = tie FUEL (layered_sem tb WLayeredS noflags (sub_obj tb o) (sub_obj tb i)).
 Proof. reflexivity. Qed.
 Lemma sub_unf_id tb : call (sub_obj tb SIdentity) = tie FUEL (fwd_sem tb WIdentityS (fun _ _ => poison)).
 Proof. reflexivity. Qed.
@@ -49,7 +49,7 @@ Lemma filt_unf_wrap tb w x : call (filt_obj tb (FWrap w x)) = tie FUEL (fwd_sem 
 Proof. reflexivity. Qed.
 Lemma coll_unf_wrap tb w c : call (coll_obj tb (CWrap w c)) = tie FUEL (fwd_sem tb (cwrap_w w) (call (coll_obj tb c))).
 Proof. reflexivity. Qed.
-Lemma coll_unf_layered tb s c : call (coll_obj tb (CLayered s c)) = tie FUEL (layered_sem tb WLayeredC (sub_obj tb s) (coll_obj tb c)).
+Lemma coll_unf_layered tb s c : call (coll_obj tb (CLayered s c)) = tie FUEL (layered_sem tb WLayeredC (flags_of_root c) (sub_obj tb s) (coll_obj tb c)).
 Proof. reflexivity. Qed.
 
 Lemma tie_S : forall n f, tie (S n) f = f (tie n f).
@@ -158,7 +158,7 @@ Proof.
     + pose proof (HS register_callsite a eq_refl) as H1. pose proof (IHc register_callsite a eq_refl) as H2.
       destruct (call (sub_obj (etb v) s) register_callsite a) as [lo ro]. simpl in H1. destruct ro; try discriminate H1.
       destruct (call (coll_obj (etb v) c) register_callsite a) as [li ri]. simpl in H2. destruct ri; try discriminate H2.
-      destruct i; reflexivity.
+      match goal with |- context [if ?b then _ else _] => destruct b end; reflexivity.
     + pose proof (HS enabled a eq_refl) as H1. pose proof (IHc enabled a eq_refl) as H2.
       destruct (call (sub_obj (etb v) s) enabled a) as [lo ro]. simpl in H1. destruct ro; try discriminate H1.
       destruct (call (coll_obj (etb v) c) enabled a) as [li ri]. simpl in H2. destruct b; [exact H2|reflexivity].
@@ -220,7 +220,8 @@ Proof.
     cbn [String.eqb Ascii.eqb Bool.eqb orb]; rewrite ?id_call by reflexivity; rewrite ?id_none; try rewrite (Hn eq_refl);
     destruct (call (sub_obj _ x) _ a) as [l r]; simpl in HT; destruct r; try discriminate HT; cbn [fst app is_sometimes];
     rewrite ?app_nil_r; try reflexivity.
-  destruct v; reflexivity.
+  - destruct v; reflexivity.
+  - destruct i; reflexivity.
 Qed.
 
 Lemma id_inner_call : forall v x m a, sscope m = true -> (m = max_level_hint -> is_none (sub_obj (etb v) x) = false) ->
@@ -394,10 +395,12 @@ Section V2.
       + rewrite !(tie_S 1). unfold layered_sem at 1 3. crow. rwc H (So x). reflexivity.
     - rewrite !layered_none, N. reflexivity.
   Qed.
-  Lemma cong_layered_c : forall s x y, coq_on (Co x) (Co y) -> coq_on (Co (CLayered s x)) (Co (CLayered s y)).
+  (** the `Layered` above looks at the TYPE of its inner collector (`inner_is_registry`): both sides must agree on it *)
+  Lemma cong_layered_c : forall s x y, coq_on (Co x) (Co y) -> flags_of_root x = flags_of_root y ->
+    coq_on (Co (CLayered s x)) (Co (CLayered s y)).
   Proof.
-    intros s x y [H N]. split.
-    - intros m a Hm. rewrite !coll_unf_layered. tie3. unfold layered_sem at 1 3.
+    intros s x y [H N] HF. split.
+    - intros m a Hm. rewrite !coll_unf_layered, HF. tie3. unfold layered_sem at 1 3.
       destruct m; try discriminate Hm; crow; rewrite ?N; rwc H (Co x); try reflexivity.
       rewrite !(tie_S 1). unfold layered_sem at 1 3. crow. rwc H (Co x). reflexivity.
     - rewrite !layered_none, N. reflexivity.
@@ -456,19 +459,24 @@ Section V3.
     - apply cong_pair_o. apply IHk; exact H.
     - apply cong_pair_i. apply IHk; exact H.
   Qed.
+  Lemma cplug_flags : forall k x y, flags_of_root (cplug k x) = flags_of_root (cplug k y).
+  Proof. destruct k; reflexivity. Qed.
+  Lemma kplug_flags : forall k x y, flags_of_root x = flags_of_root y -> flags_of_root (kplug k x) = flags_of_root (kplug k y).
+  Proof. destruct k; intros x y H; cbn [kplug]; [exact H|reflexivity|reflexivity]. Qed.
+
   Lemma cplug_on : forall k x y, seq_on (So x) (So y) -> coq_on (Co (cplug k x)) (Co (cplug k y)).
   Proof.
     induction k; intros x y H; cbn [cplug].
     - apply cong_layered_s. apply splug_on; exact H.
     - apply cong_cwrap. apply IHk; exact H.
-    - apply cong_layered_c. apply IHk; exact H.
+    - apply cong_layered_c; [apply IHk; exact H|apply cplug_flags].
   Qed.
-  Lemma kplug_on : forall k x y, coq_on (Co x) (Co y) -> coq_on (Co (kplug k x)) (Co (kplug k y)).
+  Lemma kplug_on : forall k x y, coq_on (Co x) (Co y) -> flags_of_root x = flags_of_root y -> coq_on (Co (kplug k x)) (Co (kplug k y)).
   Proof.
-    induction k; intros x y H; cbn [kplug].
+    induction k; intros x y H HF; cbn [kplug].
     - exact H.
-    - apply cong_cwrap. apply IHk; exact H.
-    - apply cong_layered_c. apply IHk; exact H.
+    - apply cong_cwrap. apply IHk; assumption.
+    - apply cong_layered_c; [apply IHk; assumption|apply kplug_flags; exact HF].
   Qed.
 
   Lemma build_log_cplug : forall k x y, seq_on (So x) (So y) -> build_log tb (cplug k x) = build_log tb (cplug k y).
@@ -512,8 +520,13 @@ Proof.
   apply run_case_on; [apply cplug_on; exact H|apply build_log_cplug; exact H].
 Qed.
 
-Theorem collector_wrappers_transparent_v : forall v K ws c ops,
+Lemma cwrap_nest_flags : forall ws c, flags_of_root c = noflags -> flags_of_root (cwrap_nest ws c) = flags_of_root c.
+Proof. intros ws c H. destruct ws; cbn [cwrap_nest fold_right]; [reflexivity|rewrite H; reflexivity]. Qed.
+
+(** [flags_of_root c = noflags]: [c] is not the bare `Registry` value (boxing the `Registry` itself changes the type the
+    `Layered` above compares with `Registry`; see notes/C09.md). *)
+Theorem collector_wrappers_transparent_v : forall v K ws c ops, flags_of_root c = noflags ->
   run_case (etb v) (kplug K (cwrap_nest ws c)) ops = run_case (etb v) (kplug K c) ops.
 Proof.
-  intros v K ws c ops. apply run_case_on; [apply kplug_on; apply cwrap_nest_on|apply build_log_kplug; apply build_log_cwrap_nest].
+  intros v K ws c ops HF. apply run_case_on; [apply kplug_on; [apply cwrap_nest_on|apply cwrap_nest_flags; exact HF]|apply build_log_kplug; apply build_log_cwrap_nest].
 Qed.
